@@ -38,4 +38,5 @@ def run(tier, seed):
                 forced.stale_probe_result_after_the_deploy(), forced.record_of_an_ended_request_is_not_the_new_one(),
                 forced.streamed_response_runs_on_while_draining(), forced.redeploy_of_a_sub_path_service_keeps_the_tls_policy(),
                 forced.rollout_redeploy_keeps_serving_the_rollout_group_while_it_waits(),
-                forced.probe_slower_than_the_interval_but_within_its_timeout()])
+                forced.probe_slower_than_the_interval_but_within_its_timeout(),
+                forced.redeploy_with_custom_error_pages(), forced.drain_outlasts_the_target_timeout()])
